@@ -205,6 +205,13 @@ def document(input_file: str, settings: Settings):
             logger.debug(f"Subdirs: {subdirs}")
             logger.debug(f"Root: {root}")
 
+            # Never treat the output directory as input. It may lie inside the input tree,
+            # descending into it would document the directories this run is creating
+            if output_path is not None:
+                for subdir in copy.copy(subdirs):
+                    if os.path.abspath(os.path.join(root, subdir)) == os.path.abspath(output_path):
+                        subdirs.remove(subdir)
+
             # Check our subdirs and see if any match the exclusion filters
             # If they do, remove from the list and os.walk() will ignore them
             for subdir in subdirs:
